@@ -194,8 +194,8 @@ def opRemovedOpts (j : Json) : R Json := do
 def opPreRemoved (j : Json) : R Json := do
   let ty ← consType (← str (← field j "ty"))
   let nOpts ← listOf nat (← field j "n_opts")
-  let ap ← bool (← field j "all_permanent")
-  return jList (fun p : Nat × List Nat => Json.arr #[jNat p.1, jList jNat p.2]) (preRemoved ty nOpts ap)
+  let perm ← listOf bool (← field j "permanent")
+  return jList (fun p : Nat × List Nat => Json.arr #[jNat p.1, jList jNat p.2]) (preRemovedP ty nOpts perm)
 
 def opValidIdx (j : Json) : R Json := do
   let ty ← consType (← str (← field j "ty"))
